@@ -258,3 +258,7 @@ def run(repo: Repo, rep: Report, tier: str) -> None:
     roots = [f.key for f in repo.all_functions() if f.cls is not None and f.cls.name in ("UnionMetaType", "Union", "UnionProxy")
              and f.name in ("_read", "_read_fields", "_write", "_rebuild", "_update", "_proxify", "__setattr__", "__call__")]
     residue_rule(repo, rep, rid, cg, cg.closure(roots), roots)
+    from .c04 import layout_fold_rule
+
+    layout_fold_rule(repo, rep, "C11.R9", 3 if tier == "thorough" else 2, part="union")
+
